@@ -7,17 +7,25 @@ from geom import fd_glyphs_json
 from ufo import build, rat
 
 ID = "C01"
-PROOF_FILES = ["Geom", "Reverse", "Render", "RenderExact", "GoodCert", "C01", "C01Skip"]
-THEOREM = "Ufo2ft.C01.C01_outline / C01_round / C01_advance (+ shared Geom/Reverse/Render theorems)"
+PROOF_FILES = ["Geom", "Reverse", "Render", "RenderExact", "GoodCert", "C01", "C01Skip", "C01Codec"]
+THEOREM = ("Ufo2ft.C01.C01_outline / C01_round / C01_advance / C01_codec_roundtrip / C01_codec_no_drift / C01_codec_integral / "
+           "C01_codec_charstring / C01_codec_cff2 / C01_codec_glyph (+ shared Geom/Reverse/Render theorems)")
 N = {"quick": 250, "thorough": 5000}
 RULE = ("random fonts: closed contours of line / cubic / quadratic segments on a 1/8 grid with 30% half-integer and 25% negative "
         "coordinates (quadratics only with roundTolerance None/0.5 and only when no elevated control point is within 1e-6 of a rounding "
         "boundary, since the 2/3 elevation is floating point); component graphs of depth <= 6 with dyadic affine matrices incl. mirrors, "
         "shears, rotations (a separate share with singular matrices); fractional / half-integer / zero widths; skipExportGlyphs lists in "
         "15% of the fonts; x ufoLib2/defcon x roundTolerance {None,0,0.25,0.5} x cffVersion {1,2}; compileOTF(optimizeCFF=0), saved and "
-        "reloaded, every glyph drawn into a RecordingPen. non-trivial = some glyph has a component chain of depth>=2 or a det<0 component, "
-        "and some coordinate or width is a half-integer.")
-ASSUMED = ["Type 2 charstring encoding/decoding (fontTools) returns the commands the pen recorded (non-integers are 16.16 fixed: exact on the 1/8 grid)",
+        "reloaded, every glyph drawn into a RecordingPen AND its raw charstring program read (CharStrings[name].decompile(); .program) and "
+        "compared token for token - width operand, every delta, every operator, endchar - with the Lean model's charstring (cffProgram); the Lean "
+        "Type 2 interpreter is run over every observed program and must draw what fontTools' interpreter drew and recover the hmtx advance. "
+        "non-trivial = some glyph has a component chain of depth>=2 or a det<0 component, and some coordinate or width is a half-integer.")
+ASSUMED = ["unspecialised charstrings (optimizeCFF=0): the codec is no longer assumed - pen, program, interpreter and the CFF->CFF2 clean-up are modelled "
+           "and the round trip is proved (Props/C01Codec.lean); what remains assumed below that is fontTools' BINARY number encoding (28/32..254/255 "
+           "16.16 fixed: exact on the generated 1/8..1/512 grids; measured on every font: in-memory program == program after save/reload) and that the "
+           "doubles of the pen's subtractions / the interpreter's running sums are exact on those grids (the model computes in Q)",
+           "specialised and subroutinised charstrings (optimizeCFF>=1) are C12's subject (specializeCommands passes 1-3 modelled there, the rest measured)",
+           "fontTools.cffLib.width.optimizeWidths (choice of defaultWidthX/nominalWidthX) is an input of the width model; any pair is proved correct (C12_width)",
            "open contours cannot be represented in CFF and are not generated; contours without on-curve points are not generated",
            "BasePen's quadratic-to-cubic elevation multiplies by the double 0.6666666666666667: inputs within 1e-6 of a rounding boundary are not generated"]
 
@@ -89,6 +97,43 @@ def _ops(tt, name):
     return out
 
 
+def _tok(t):
+    if isinstance(t, str):
+        return t
+    if isinstance(t, (int, float)) and not isinstance(t, bool):
+        return rat(t)
+    return "?" + type(t).__name__
+
+
+def _programs(tt):
+    """the RAW charstring program of every glyph: operands as exact rationals, operators by name"""
+    tag = "CFF " if "CFF " in tt else "CFF2"
+    top = tt[tag].cff.topDictIndex[0]
+    out = {}
+    for n in tt.getGlyphOrder():
+        cs = top.CharStrings[n]
+        cs.decompile()
+        out[n] = [_tok(t) for t in cs.program]
+    dn = None
+    if tag == "CFF ":
+        dn = [top.Private.defaultWidthX, top.Private.nominalWidthX]
+    return out, dn
+
+
+def _auto_widths(fd, skip):
+    """fontTools.cffLib.width.optimizeWidths is external: its choice is an INPUT of the width model (C12.defNom)"""
+    from fontTools.cffLib.width import optimizeWidths
+    from fontTools.misc.roundTools import otRound
+    ws = [g["width"] for g in fd["glyphs"] if g["name"] not in skip]
+    if not any(g["name"] == ".notdef" for g in fd["glyphs"]):
+        ws.append(otRound(fd.get("upm", 1000) * 0.5))     # makeMissingRequiredGlyphs: the synthesised .notdef
+    try:
+        d, n = optimizeWidths(sorted(otRound(w) for w in ws))
+        return [int(d), int(n)]
+    except Exception:
+        return [0, 0]
+
+
 def run(case):
     import ufo2ft
     from fontTools.ttLib import TTFont
@@ -102,13 +147,24 @@ def run(case):
     obs = {"err": None}
     try:
         tt = ufo2ft.compileOTF(font, **kw)
+        mem, _ = _programs(tt)
         buf = io.BytesIO(); tt.save(buf); buf.seek(0)
         tt = TTFont(buf)
-        obs["glyphs"] = [[n, _ops(tt, n), tt["hmtx"][n][0]] for n in tt.getGlyphOrder() if n != ".notdef" or any(g["name"] == ".notdef" for g in fd["glyphs"])]
+        progs, dn = _programs(tt)
+        obs["glyphs"] = [[n, _ops(tt, n), tt["hmtx"][n][0], progs[n]] for n in tt.getGlyphOrder()
+                         if n != ".notdef" or any(g["name"] == ".notdef" for g in fd["glyphs"])]
+        obs["dn"] = dn
+        obs["tag"] = 1 if "CFF " in tt else 2
+        # the binary number encoding (fontTools compile/decompile) returned the tokens the compiler produced
+        obs["binary_ok"] = mem == progs
     except Exception as e:
         obs = {"err": type(e).__name__}
     tol = 0.5 if case["tol"] is None else case["tol"]
-    inp = {"tol": rat(tol), "glyphs": fd_glyphs_json(fd), "skip": case["skip"]}
+    info = fd.get("info", {})
+    inp = {"tol": rat(tol), "glyphs": fd_glyphs_json(fd), "skip": case["skip"], "cff": case["cff"],
+           "auto": _auto_widths(fd, case["skip"]),
+           "infoD": None if info.get("postscriptDefaultWidthX") is None else rat(info["postscriptDefaultWidthX"]),
+           "infoN": None if info.get("postscriptNominalWidthX") is None else rat(info["postscriptNominalWidthX"])}
     neg = any(t[0] * t[3] - t[1] * t[2] < 0 for g in fd["glyphs"] for _, t in g["components"])
     halves = any((p[0] * 2) % 2 == 1 or (p[1] * 2) % 2 == 1 for g in fd["glyphs"] for c in g["contours"] for p in c) or \
         any((g["width"] * 2) % 2 == 1 for g in fd["glyphs"])
@@ -124,7 +180,21 @@ def agree(req, rep):
     mg = {g[0]: g for g in m["glyphs"]}
     if sorted(mg) != sorted(g[0] for g in o["glyphs"]):
         return False
-    return all(mg[g[0]] == g for g in o["glyphs"])
+    if not all(mg[g[0]] == g for g in o["glyphs"]):        # outline, advance AND the raw program, token for token
+        return False
+    if o.get("tag") != req["in"]["cff"] or not o.get("binary_ok"):
+        return False
+    if o["tag"] == 1 and o.get("dn") != m.get("dn"):
+        return False
+    # the Lean Type 2 interpreter on the OBSERVED program draws what fontTools' interpreter drew, and recovers the advance
+    dec = {d[0]: d for d in m.get("dec", [])}
+    for g in o["glyphs"]:
+        d = dec.get(g[0])
+        if d is None or d[1] != g[1]:
+            return False
+        if o["tag"] == 1 and d[2] != str(g[2]):
+            return False
+    return True
 
 
 def shrink(case):
@@ -154,8 +224,16 @@ LEVEL_TEXT = ("Proved (Lean, all inputs): the model of the CFF path (skip-export
               "PointToSegmentPen/BasePen conversion, rounding) draws for every glyph a permutation of - and for the default pipeline exactly - "
               "the contours of the specification renderer (one composed matrix per leaf, reversed iff the composed determinant is negative) on "
               "acyclic non-singular glyph sets with closed contours; rounding = otRound for tolerance>=1/2 (halves up, also negative), identity "
-              "for 0, and never moves a coordinate by more than the tolerance; advance = otRound(width), negative rejected. Tied to the code by "
-              "compiling random fonts with compileOTF and comparing every drawing command.")
-LEVEL_NOTE = ("Trusted: Lean kernel + standard axioms; correspondence harness; Type 2 charstring codec; quadratic elevation is float arithmetic "
+              "for 0, and never moves a coordinate by more than the tolerance; advance = otRound(width), negative rejected. The charstring layer "
+              "(optimizeCFF=0) is proved too: T2CharStringPen rounds every ABSOLUTE point once and emits differences of rounded points, and the Type 2 "
+              "interpreter (operand stack, width by operand parity, running sums, implicit closing) run over the stored program - CFF 1 with width "
+              "operand and endchar, or CFF2 after fontTools' conversion - returns exactly those rounded absolute points for every well-formed outline "
+              "of any size (C01_codec_roundtrip / _charstring / _cff2 / _glyph), so the error at any position is that of ONE rounding however many "
+              "relative commands precede it (C01_codec_no_drift; a pen rounding the deltas instead drifts without bound: naive_pen_drift_unbounded), "
+              "every operand is an integer at tolerance >= 1/2 (C01_codec_integral), and the width operand decodes to otRound(width). Tied to the code by "
+              "compiling random fonts with compileOTF and comparing every drawing command and every token of every raw charstring program.")
+LEVEL_NOTE = ("Trusted: Lean kernel + standard axioms; correspondence harness; fontTools' binary number encoding of charstrings and exactness of "
+              "double arithmetic on the generated dyadic grids (the Type 2 command/program/interpreter layer itself is modelled and proved for "
+              "unspecialised charstrings; specialised ones are C12's); quadratic elevation is float arithmetic "
               "(generator avoids rounding boundaries); singular components make contour direction traversal-dependent and are judged by the model "
               "only; open contours / all-off-curve contours are outside the model.")
